@@ -221,6 +221,8 @@ def getitem(I, o, k):
         I.throw('TypeError', "'NoneType' object is not subscriptable")
     if isinstance(o, VClass):
         return o          # typing generics
+    if hasattr(o, 'host_getitem'):
+        return o.host_getitem(I, k)
     raise Unsupported(f'getitem on {type(o).__name__}')
 
 
